@@ -585,6 +585,43 @@ fn shell_level(ctx: &Ctx, n: usize) {
                     ],
                 ));
             }
+            // a pattern that comes out of an unquoted expansion: a backslash in the value quotes the
+            // next character; a backslash that ends the value stands for itself
+            {
+                let pv = *rng.pick(&["a\\", "\\a", "a\\*", "\\\\", "*\\", "\\*a", "a\\\\", "?\\"]);
+                let tx = rng.pick(&["a", "a\\", "\\a", "a*", "\\", "ab", "*a", "b\\"]).to_string();
+                // model: the value as pattern characters
+                let mut pcs: Vec<PC> = Vec::new();
+                let cs: Vec<char> = pv.chars().collect();
+                let mut k = 0;
+                while k < cs.len() {
+                    if cs[k] == '\\' {
+                        if k + 1 < cs.len() {
+                            pcs.push(PC::L(cs[k + 1]));
+                            k += 2;
+                        } else {
+                            pcs.push(PC::L('\\'));
+                            k += 1;
+                        }
+                    } else {
+                        pcs.push(PC::N(cs[k]));
+                        k += 1;
+                    }
+                }
+                if let Parsed::Ok(at) = m::parse(&pcs) {
+                    let chars: Vec<char> = tx.chars().collect();
+                    script.push_str(&format!(
+                        "p={}; v={}\ncase \"$v\" in $p) probe casev yes;; *) probe casev no;; esac\nprobe trimv \"${{v#$p}}\" \"${{v%$p}}\"\n",
+                        sh_quote(pv),
+                        sh_quote(&tx)
+                    ));
+                    expect.push((format!("case {tx:?} against the value {pv:?} used as a pattern"), vec!["casev".into(), if m::matches(&at, &chars) { "yes".into() } else { "no".into() }]));
+                    expect.push((
+                        format!("trims of {tx:?} by the value {pv:?} used as a pattern"),
+                        vec!["trimv".into(), m::trim(&at, &tx, Trim::PrefixShortest), m::trim(&at, &tx, Trim::SuffixShortest)],
+                    ));
+                }
+            }
             let out = vsh::run_script(&script, Strategy::Fifo);
             ctx.evals(expect.len());
             if out.events.len() != expect.len() {
